@@ -148,9 +148,24 @@ func runC02(e *Engine, tier Tier) *PropRun {
 		edges = append(edges, &rankEdge{from: root.fn, to: callee, site: fmt.Sprintf("%s -> %s #%d (%s)", fnKey(root.fn), fnKey(callee), k, e.posString(ins.Pos())), guardOb: g})
 	}
 	rs := e.verifyAll(recFns, opts, nil)
+	// size and token limits: the contracts of the two tokenizer entry points
+	var lim []*ssa.Function
+	for _, k := range []string{"sql/tokenizer.(*Tokenizer).Tokenize", "sql/tokenizer.(*Tokenizer).TokenizeContext"} {
+		if f := e.Fn(k); f != nil {
+			lim = append(lim, f)
+		}
+	}
+	limRes := e.verifyAll(lim, &VCOpts{InlineDepth: 1}, nil)
+	rs = append(rs, limRes...)
 	run := &PropRun{
 		Results: rs, FUC: fucList(rs),
-		Claim: func(o *Obligation) bool { return o.Kind == "rank" || o.Kind == "rankq" },
+		Claim: func(o *Obligation) bool {
+			if o.Kind == "rank" || o.Kind == "rankq" {
+				return true
+			}
+			return strings.HasPrefix(o.Fn, "sql/tokenizer.") && (o.Kind == "post" || o.Kind == "inv-init" || o.Kind == "inv-pres") &&
+				(strings.Contains(o.Name, "MaxTokens") || strings.Contains(o.Name, "MaxInputSize"))
+		},
 	}
 	run.PostDischarge = func() {
 		// guarded edges are those whose guard query was proved; the unguarded ones must form no cycle
@@ -232,8 +247,8 @@ func runC02(e *Engine, tier Tier) *PropRun {
 		run.Results = append(run.Results, syn)
 		run.Extra = map[string]any{"recursive_functions": len(recFns), "intra_scc_call_sites": len(edges), "guarded_call_sites": nGuarded}
 	}
-	run.Explanation = "Nesting: every function of package parser on a cycle of the static call graph gets the termination measure (MaxRecursionDepth+1-p.depth, rank). For every call site inside a recursive component the VC generator evaluates p.depth at the site against p.depth at entry (heap model, deferred decrement, callee contracts depth == old(depth)): obligation depth-nondecreasing (the measure never grows) and the query guarded (entry+1 <= depth <= MaxRecursionDepth at the site, i.e. the call is reached only after a checked increment). A rank exists iff the unguarded call sites form no cycle; each edge of such a cycle is reported as a failed obligation. Stack depth is then bounded by (MaxRecursionDepth+1)*|component| frames independently of input length."
-	run.NotCovered = []string{"byte size of frames", "tokenizer comment recursion and AST walkers (bounded by tree depth)", "size and token limits (dedicated error codes): see C13 attributes when claimed"}
+	run.Explanation = "Limits: Tokenize and TokenizeContext prove len(input) > MaxInputSize => error, the main-loop invariant len(tokens) <= MaxTokens (so the token limit is enforced at every iteration, for every input) and len(result) <= MaxTokens+1. Nesting: every function of package parser on a cycle of the static call graph gets the termination measure (MaxRecursionDepth+1-p.depth, rank). For every call site inside a recursive component the VC generator evaluates p.depth at the site against p.depth at entry (heap model, deferred decrement, callee contracts depth == old(depth)): obligation depth-nondecreasing (the measure never grows) and the query guarded (entry+1 <= depth <= MaxRecursionDepth at the site, i.e. the call is reached only after a checked increment). A rank exists iff the unguarded call sites form no cycle; each edge of such a cycle is reported as a failed obligation. Stack depth is then bounded by (MaxRecursionDepth+1)*|component| frames independently of input length."
+	run.NotCovered = []string{"byte size of frames", "tokenizer comment recursion and AST walkers (bounded by tree depth)", "that the limit errors carry exactly the dedicated codes E1006/E1007/E2007 (C13 proves the family only)", "input exactly at a limit is not rejected for that reason"}
 	run.Assumptions = []string{"static call graph: calls through interfaces or function values inside the parser package are not followed (none on the parse paths)"}
 	return run
 }
